@@ -181,7 +181,16 @@ func buildLexContract(c *Ctx, bp *boundsProver) *lexContract {
 					}
 					k, isK := constIntOf(st.Val)
 					if !isK {
-						fail("%s: the token class stored here is not a constant", c.pos(st.Pos()))
+						// one of the constants of a table built once (directive spelling -> class): none of them zString
+						set, isSet := constSetOf(f.Pkg, st.Val)
+						for _, sv := range set {
+							if sv == zs {
+								isSet = false
+							}
+						}
+						if !isSet {
+							fail("%s: the token class stored here is not a constant", c.pos(st.Pos()))
+						}
 						continue
 					}
 					if k != zs {
